@@ -12,7 +12,8 @@ TECHNIQUE = "property-based testing (Hypothesis): generated discovery scenarios 
 RULE = ("Hypothesis-generated scenarios: 1-4 chromosomes, with/without annotation, annotated + unannotated isoforms, "
         "graph noise, every model construction strategy and data type, polyA/canonical/unspliced options. "
         "Non-trivial = annotated run reporting >=1 novel and >=1 reference transcript, or annotation-free run "
-        "reporting >=2 models; distinct by scenario hash.")
+        "reporting >=2 models; distinct by scenario hash. Stage split: sparsely covered long genes processed in >= 3 "
+        "regions with a compact reference gene lying across the first split point (reads on both sides).")
 ASSUMPTIONS = ["'exons are sorted' is read as ascending on '+' and descending on '-' in file order (GTF convention "
                "used by IsoQuant) with pairwise disjoint coordinates"]
 
@@ -101,6 +102,23 @@ def evaluate(case, ctx):
         res.cleanup()
 
 
+@st.composite
+def split_scenarios(draw):
+    """Loci that IsoQuant processes in several regions (see C05): a reference gene lies across a split point and is
+    supported by different reads on both sides; models of every region end up in the same output files."""
+    rnd = draw(st.randoms(use_true_random=True))
+    src = S.RndSrc(rnd)
+    sc = S.gen_long_gene_locus(src, with_annotation=True, straddle=draw(st.sampled_from([True, True, False])))
+    sc["opts"] = ["--data_type", draw(st.sampled_from(["nanopore", "pacbio_ccs"])), "--no_gzip", "--threads",
+                  str(draw(st.sampled_from([1, 2])))]
+    if draw(st.booleans()):
+        sc["opts"] += ["--high_memory"]
+    if draw(st.booleans()):
+        sc["opts"] += ["--polya_requirement", "never"]
+    return sc
+
+
 def stages(tier):
     q = tier == "quick"
-    return [Stage("models", "hyp", evaluate, n=256 if q else 4000, strategy=scenarios)]
+    return [Stage("models", "hyp", evaluate, n=256 if q else 4000, strategy=scenarios),
+            Stage("split", "hyp", evaluate, n=48 if q else 600, strategy=split_scenarios)]
